@@ -133,4 +133,131 @@ def logMsg (l : Log) : DS → Log × Option (DS × DS)
   | DS.vote v => logVote l v
   | DS.prop p => logProp l p
 
+/-! ### the evidence acceptance path
+
+`service/transaction/doublesignreport.go` (`doubleSignReportTx.Verify`, `PreValidate`,
+`GetHandler`), `service/contract/dsrhandler.go` (`DoubleSignReport.Decode`,
+`DSRHandler.DoExecuteSync`, `verifyHashOfHeight`), `service/contract/dscontext.go`
+(`DSContextHistory.Get`), `service/state/dsrcontext.go` (`dsValidators.AddressOf`).
+A report carries a type tag, data items (byte strings), and a context (the encoded validator
+list of the evidence's height).  What the code reads of them:
+* an item is the encoding of a signed vote, of a signed proposal, or neither (`garbage`);
+  `DecodeDoubleSignData(tag, bytes)` succeeds exactly for a message of the tagged kind,
+* `ord` = `bytes.Compare(data1, data2)` (0 less, 1 equal, 2 greater),
+* the context decodes to a validator list (`some vals`: the signer ids in it) or not; its hash
+  is the hash of that list, modelled by the list itself (collision freeness). -/
+
+inductive Item where
+  | msg (m : DS)
+  | garbage (j : Nat)
+deriving DecidableEq, Repr
+
+/-- `DoubleSignReport.Type` -/
+inductive Tag where
+  | vote
+  | proposal
+  | other
+deriving DecidableEq, Repr
+
+/-- who sent the transaction: `From == nil` (system), `From` set with a valid signature, `From` set unsigned -/
+inductive From where
+  | none
+  | signed
+  | unsigned
+deriving DecidableEq, Repr
+
+structure Report where
+  hasData : Bool
+  tag : Tag
+  items : List Item
+  ord : Nat
+  ctx : Option (List Nat)
+  sender : From
+deriving Repr
+
+/-- what the execution environment provides -/
+structure Env where
+  revOn : Bool                         -- revision has ReportDoubleSign
+  blockHeight : Int
+  history : List (Int × List Nat)      -- DSContextHistory: (height, validator list)
+  callOk : Bool                        -- result of the chain SCORE call handleDoubleSignReport
+deriving Repr
+
+def DS.signer : DS → Nat
+  | DS.vote v => v.signer
+  | DS.prop p => p.signer
+
+def DS.height : DS → Int
+  | DS.vote v => v.c.h
+  | DS.prop p => p.c.h
+
+/-- `consensus.DecodeDoubleSignData(tag, bytes)` -/
+def decodeItem (t : Tag) : Item → Option DS
+  | Item.msg (DS.vote v) => if t = Tag.vote then some (DS.vote v) else none
+  | Item.msg (DS.prop p) => if t = Tag.proposal then some (DS.prop p) else none
+  | Item.garbage _ => none
+
+/-- `DoubleSignReport.Decode` -/
+def decodeReport (r : Report) : Option (DS × DS × List Nat) :=
+  match r.items with
+  | [i1, i2] =>
+    if r.ord = 2 then none                              -- "InvalidDataOrder"
+    else match decodeItem r.tag i1, decodeItem r.tag i2 with
+      | some d1, some d2 =>
+        if r.tag = Tag.other then none                  -- decodeDoubleSignContext: "InvalidType"
+        else match r.ctx with
+          | some c => some (d1, d2, c)
+          | none => none
+      | _, _ => none
+  | _ => none                                           -- "InvalidDataLength"
+
+/-- `doubleSignReportTx.Verify` -/
+def verifyTx (r : Report) : Bool :=
+  r.hasData && r.items.length == 2 && (r.sender == From.none || r.sender == From.signed)
+
+inductive Pre where
+  | ok | disabled | fromSet | decode | invalid
+deriving DecidableEq, Repr
+
+/-- `doubleSignReportTx.PreValidate` (`ValidateNetwork` of both kinds of evidence is constantly true) -/
+def preValidate (r : Report) (e : Env) : Pre :=
+  if !e.revOn then Pre.disabled
+  else if r.sender != From.none then Pre.fromSet
+  else match decodeReport r with
+    | none => Pre.decode
+    | some (d1, d2, c) =>
+      if !conflict d1 d2 || !(c.contains d1.signer) then Pre.invalid else Pre.ok
+
+/-- `DSContextHistory.Get` -/
+def histGetLoop (height : Int) : List (Int × List Nat) → Option (List Nat)
+  | [] => none
+  | (h, v) :: rest => if h ≤ height then some v else histGetLoop height rest
+
+def histGet (hist : List (Int × List Nat)) (height : Int) : Option (List Nat) :=
+  match hist with
+  | [] => none
+  | (h0, _) :: _ => if height < h0 then none else histGetLoop height hist.reverse
+
+inductive Hnd where
+  | ok            -- the chain SCORE was called and succeeded
+  | noHandler     -- GetHandler fails: From is set
+  | format | conflict | future | signer | context | call
+deriving DecidableEq, Repr
+
+/-- `GetHandler` + `DSRHandler.DoExecuteSync` (with fix F15: non-conflicting data is an error) -/
+def handler (r : Report) (e : Env) : Hnd :=
+  if r.sender != From.none then Hnd.noHandler
+  else match decodeReport r with
+    | none => Hnd.format
+    | some (d1, d2, c) =>
+      if !conflict d1 d2 then Hnd.conflict
+      else if d1.height > e.blockHeight then Hnd.future
+      else if !(c.contains d1.signer) then Hnd.signer
+      else if histGet e.history (d1.height - 2) != some c then Hnd.context
+      else if e.callOk then Hnd.ok else Hnd.call
+
+/-- the report transaction is accepted: Verify and PreValidate pass and the handler succeeds -/
+def accepted (r : Report) (e : Env) : Bool :=
+  verifyTx r && preValidate r e == Pre.ok && handler r e == Hnd.ok
+
 end Goloop.C06
